@@ -95,7 +95,34 @@ fn gen_long_line(t: &mut Tape, sentinel: usize, mll: usize, over: bool) -> Free 
     }
 }
 
+/// Lines that start with `{` but are not records of `rg --json` output (JSON-lines logs of other
+/// tools, JSON without or with another `type`, not JSON at all): free text, like any other line.
+fn gen_brace_line(t: &mut Tape, sentinel: usize, mll: usize) -> Option<Free> {
+    let s = format!("⟦{}⟧", sentinel);
+    let line = match t.below(9) {
+        0 => format!("{{\"type\":\"error\",\"message\":\"{} failed\"}}", s),
+        1 => format!("{{\"level\":\"info\",\"msg\":\"{}\"}}", s),
+        2 => format!("{{ {} not json", s),
+        3 => format!("{{\"type\":\"match\",\"data\":\"{}\"}}", s),
+        4 => format!("{{\"type\":5,\"x\":\"{}\"}}", s),
+        5 => format!("{{\"type\":\"progress\",\"data\":{{\"path\":{{\"text\":\"{}\"}}}}}}", s),
+        6 => format!("{{{}}}", s),
+        7 => format!("{{\"type\":\"Begin\",\"data\":{{\"path\":{{\"text\":\"{}\"}}}}}}", s),
+        _ => format!("{{\"data\":{{\"type\":\"begin\"}},\"id\":\"{}\"}}", s),
+    };
+    if mll > 0 && line.len() > mll {
+        return None;
+    }
+    let b = line.into_bytes();
+    Some(Free { bytes: b.clone(), expected: b, special: true, trunc: false })
+}
+
 fn gen_free_line(t: &mut Tape, sentinel: usize, mll: usize) -> Free {
+    if t.chance(1, 14) {
+        if let Some(f) = gen_brace_line(t, sentinel, mll) {
+            return f;
+        }
+    }
     let o = TextOpts { allow_markerlike: false, allow_tabs: true, ..TextOpts::all() };
     let mut special = false;
     // visible skeleton with a unique sentinel
@@ -245,7 +272,7 @@ impl Prop for C04 {
         2500
     }
     fn rule(&self) -> String {
-        "cases = stream of free-text lines (arbitrary Unicode, metadata-like prefixes, embedded balanced/unbalanced SGR/OSC/CSI sequences, CR variants, invalid UTF-8, NUL), never starting with a construct-opening marker (judged with escape sequences removed), (i) alone, (ii) before the first construct, (iii) as commit metadata/message between a commit line and its diff, interleaved with rendered git sections; every line carries a unique sentinel; x all option sets (incl. --relative-paths with GIT_PREFIX; free lines avoid the diffstat shape ` path | N +-`); neutral calling process. Oracle: (i) stdout == stdin after only the three permitted transforms computed independently (CR normalisation, lossy UTF-8, truncation); (ii)/(iii) every free line occurs exactly once in stdout, byte-identical, free lines in input order, and each section's sentinels lie between those of the neighbouring free blocks. Non-trivial = >=1 free line with an escape sequence / non-ASCII / CR / invalid byte and, for (ii)/(iii), >=1 rendered section; distinct by hash of (input, argv).".to_string()
+        "cases = stream of free-text lines (arbitrary Unicode, metadata-like prefixes, embedded balanced/unbalanced SGR/OSC/CSI sequences, CR variants, invalid UTF-8, NUL), never starting with a construct-opening marker (judged with escape sequences removed; a line starting with `{` that is not an `rg --json` record is free text too), (i) alone, (ii) before the first construct, (iii) as commit metadata/message between a commit line and its diff, interleaved with rendered git sections; every line carries a unique sentinel; x all option sets (incl. --relative-paths with GIT_PREFIX; free lines avoid the diffstat shape ` path | N +-`); neutral calling process. Oracle: (i) stdout == stdin after only the three permitted transforms computed independently (CR normalisation, lossy UTF-8, truncation); (ii)/(iii) every free line occurs exactly once in stdout, byte-identical, free lines in input order, and each section's sentinels lie between those of the neighbouring free blocks. Non-trivial = >=1 free line with an escape sequence / non-ASCII / CR / invalid byte and, for (ii)/(iii), >=1 rendered section; distinct by hash of (input, argv).".to_string()
     }
     fn assumptions(&self) -> Vec<String> {
         vec![
